@@ -35,6 +35,7 @@ OPS = {}
 # the cost is negligible.  Started after the imports, so only lines executed
 # by protocol operations count (not import-time declarations).
 COVER = set()
+BRANCHES = set()      # (file, qualname, offset of the jump, offset reached)
 _PAUSED = [False]     # True while a protocol operation imports a module
 _SRC = os.path.realpath(os.path.dirname(quantity.__file__)) + os.sep
 
@@ -58,7 +59,28 @@ def start_cover():
         return mon.DISABLE
 
     mon.register_callback(tool, mon.events.LINE, on_line)
-    mon.set_events(tool, mon.events.LINE)
+    events = mon.events.LINE
+    if not os.environ.get("VERIF_NO_BRANCH"):
+        # both directions of every conditional jump in the repository's code:
+        # a location stays monitored until its second destination was seen
+        seen = {}
+
+        def on_branch(code, src, dst):
+            if _PAUSED[0]:
+                return None
+            fn = code.co_filename
+            if not fn.startswith(_SRC):
+                return mon.DISABLE
+            key = (fn[len(_SRC):], code.co_qualname, src)
+            d = seen.setdefault(key, set())
+            if dst not in d:
+                d.add(dst)
+                BRANCHES.add((key[0], key[1], src, dst))
+            return mon.DISABLE if len(d) >= 2 else None
+
+        mon.register_callback(tool, mon.events.BRANCH, on_branch)
+        events |= mon.events.BRANCH
+    mon.set_events(tool, events)
     return True
 
 
@@ -186,10 +208,10 @@ def run_case(case, timeout=None):
         os.close(r)
         try:
             signal.alarm(timeout)
-            base = set(COVER)
+            base, bbase = set(COVER), set(BRANCHES)
             out = exec_ops(case["ops"])
-            data = json.dumps({"out": out, "cov": sorted(COVER - base)}
-                              ).encode()
+            data = json.dumps({"out": out, "cov": sorted(COVER - base),
+                               "br": sorted(BRANCHES - bbase)}).encode()
         except BaseException as exc:  # noqa: BLE001
             data = json.dumps({"out": ["crash " + type(exc).__name__],
                                "cov": []}).encode()
@@ -207,6 +229,7 @@ def run_case(case, timeout=None):
     payload = json.loads(data)
     out = payload["out"]
     COVER.update((f, n) for f, n in payload["cov"])
+    BRANCHES.update(tuple(b) for b in payload.get("br", []))
     if len(out) != len(case["ops"]):
         out = out + ["crash"] * (len(case["ops"]) - len(out))
     return out
@@ -940,8 +963,12 @@ def _q_sum(st, items, d):
         # generator must all give the same result
         res = [show(lambda: qsum(qs)), show(lambda: qsum(tuple(qs))),
                show(lambda: qsum(iter(qs))), show(lambda: qsum(q for q in qs))]
+        if qs:
+            # an explicit start value is the first summand
+            res.append(show(lambda: qsum(qs[1:], qs[0])))
+            res.append(show(lambda: qsum(iter(qs[1:]), start=qs[0])))
         if len(set(res)) != 1:
-            return "ok DIFFERENT list=%s tuple=%s iter=%s gen=%s" % tuple(res)
+            return "ok DIFFERENT " + " | ".join(res)
         return res[0]
 
 
